@@ -1165,6 +1165,11 @@ class Engine:
                 return PyList(a.items + b.items)
             if isinstance(a, tuple) and isinstance(b, tuple):
                 return a + b
+        if isinstance(op, (ast.BitXor, ast.BitAnd, ast.BitOr)) and all(isinstance(x, bool) or (is_z3(x) and z3.is_bool(x)) for x in (a, b)):
+            if isinstance(a, bool) and isinstance(b, bool):
+                return {ast.BitXor: a ^ b, ast.BitAnd: a & b, ast.BitOr: a | b}[type(op)]
+            za, zb = lift(a), lift(b)
+            return {ast.BitXor: z3.Xor(za, zb), ast.BitAnd: And(za, zb), ast.BitOr: Or(za, zb)}[type(op)]
         if isinstance(a, Ext) or isinstance(b, Ext):
             a = a if isinstance(a, Ext) else Ext.fin(a)
             b = b if isinstance(b, Ext) else Ext.fin(b)
